@@ -225,7 +225,7 @@ Print Assumptions failed_seek_leaves_consistent_cache.
 
 Theorem failed_seek_before_fix_returns_wrong_data :
   exists st', seekable_decompress ex_H ex_content 4 16 ex_t0 true
-                (restart_seek_failed ex_t0 true after_first_read 0) [0] 1 0 (repeat (1, true) 8) = ROk 1 [50] st'
+                (restart_seek_failed ex_t0 true after_first_read 0) [0] 1 0 (repeat (1, false) 8) = ROk 1 [50] st'
               /\ sliceN ex_x 0 1 = [10].
 Proof. exact stale_cache_wrong_data. Qed.
 Print Assumptions failed_seek_before_fix_returns_wrong_data.
@@ -472,3 +472,38 @@ Theorem corruption_return_before_fix_reads_next_frame :
                = RErr sk_E_corruption_detected d st').
 Proof. exact SeekFailed.corruption_return_before_fix_reads_next_frame. Qed.
 Print Assumptions corruption_return_before_fix_reads_next_frame.
+
+(* ---- fix b63eccc (a frame that completes before the end its seek-table entry gives is refused whether or not the read wants
+   more).  NO assumption on the contents (frames shorter or longer than their entries, wrong checksums, anything): call a state
+   Sound when the reader is positioned nowhere, or its decoder has not finished the frame it claims to be in, or it has and
+   decompressedOffset is at / beyond the end the table gives for that frame.  The state after init and after every failed call
+   is Sound; every ZSTD_seekable_decompress that returns a position (success, or "oracle exhausted") from a Sound state returns a
+   Sound state - any well-formed table, hash, pacing, arguments; and from a Sound state the continue path (no seek, no reset) is
+   only ever taken with a decoder that is still inside the claimed frame: it never decodes the NEXT frame of the file as the rest
+   of this one (what findings a2a0322 and b63eccc were). *)
+Theorem reader_position_stays_sound : forall H content BUFF NOPROG t, wf_table t ->
+  forall st dst len offset orc, Sound t st ->
+  result_sound t (seekable_decompress H content BUFF NOPROG t true st dst len offset orc).
+Proof. exact call_keeps_sound. Qed.
+Print Assumptions reader_position_stays_sound.
+Theorem continue_path_never_runs_a_finished_decoder : forall (H : list N -> N) (content : N -> list N) t, wf_table t -> forall st offset target,
+  Sound t st -> offset < e_d (ent t (t_len t)) -> offset_to_frame t offset = Ok target ->
+  prelude t offset st (w32 target) = Ok st -> d_fin st = false.
+Proof. exact continue_path_has_live_decoder. Qed.
+Print Assumptions continue_path_never_runs_a_finished_decoder.
+Theorem initial_and_failed_states_are_sound : forall t doff f p fin acc tr,
+  Sound t rinit /\ Sound t (nowhere doff f p fin acc tr).
+Proof. intros. split; [apply Sound_rinit|apply Sound_nowhere]. Qed.
+Print Assumptions initial_and_failed_states_are_sound.
+(* witness on the old loop (no error return is involved, so the code at a2a0322 behaves the same): entry 0 announces 24 bytes, the
+   frame holds 16: decompress(dst,16,0) succeeds and keeps (frame 0, offset 16) with the decoder finished - not Sound -, then
+   decompress(dst,4,16) returns the first four bytes of FRAME 1; the current model refuses the first call and forgets the position *)
+Theorem short_frame_unnoticed_before_fix :
+  (exists st, seekable_decompress_keep st_H st_content 64 16 st_t true rinit (repeat 165 16) 16 0 [(16, true)]
+              = ROk 16 [0;1;2;3;4;5;6;7;8;9;10;11;12;13;14;15] st /\ r_cur st = 0 /\ r_doff st = 16 /\ d_fin st = true) /\
+  (exists st', seekable_decompress_keep st_H st_content 64 16 st_t true st_after_ok_keep [165;165;165;165] 4 16 [(4, false)]
+               = ROk 4 [100; 101; 102; 103] st') /\
+  (exists d st', seekable_decompress st_H st_content 64 16 st_t true rinit (repeat 165 16) 16 0 [(16, true)]
+               = RErr sk_E_corruption_detected d st' /\ r_cur st' = 4294967295).
+Proof. exact SeekFailed.short_frame_unnoticed_before_fix. Qed.
+Print Assumptions short_frame_unnoticed_before_fix.
